@@ -337,6 +337,72 @@ func (ec *evalCtx) protectedAccess(x *ast.SelectorExpr) {
 	}
 }
 
+// Closed-channel safety (directive `closable <elem type>`). A send on a closed channel and a second close panic, so
+// for channels of such an element type:
+//   - chanopen(ch) is ghost state that any other goroutine may change at any moment, except for a channel this
+//     activation made and has not closed (only the maker closes): every fact about the openness of other channels is
+//     forgotten when a lock is acquired or released and at the start of a goroutine, and comes back only from a lock
+//     invariant that is assumed while the lock is held;
+//   - a send needs chanopen(ch); a close needs the channel to be this activation's own, still open, and every lock
+//     whose invariant speaks about chanopen to be held (so that the invariant is re-proved at the release).
+func (ec *evalCtx) closableChan(ch ast.Expr) bool {
+	ct, ok := ec.info.TypeOf(ch).Underlying().(*types.Chan)
+	if !ok || ec.e().cs == nil || len(ec.e().cs.Closable) == 0 {
+		return false
+	}
+	return ec.e().closableElem(ct.Elem())
+}
+
+func (e *Engine) closableElem(elem types.Type) bool {
+	for k := range e.cs.Closable {
+		i := strings.LastIndex(k, ".")
+		pkg := e.pkgs[k[:i]]
+		if pkg != nil && types.TypeString(elem, types.RelativeTo(pkg.Types)) == k[i+1:] {
+			return true
+		}
+	}
+	return false
+}
+
+func (e *Engine) neverClosedElem(elem types.Type) bool {
+	if e.cs == nil {
+		return false
+	}
+	for k := range e.cs.NeverClosed {
+		i := strings.LastIndex(k, ".")
+		pkg := e.pkgs[k[:i]]
+		if pkg != nil && types.TypeString(elem, types.RelativeTo(pkg.Types)) == k[i+1:] {
+			return true
+		}
+	}
+	return false
+}
+
+func chanOpenArr(st *State) *Term {
+	if a, ok := st.ghost["chanopen"].(*Term); ok {
+		return a
+	}
+	a := Var("chanopen.entry", SArr(SInt, SBool))
+	st.ghost["chanopen"] = a
+	return a
+}
+
+// forgetChanOpen: other goroutines may have closed any channel that is not this activation's own.
+func (e *Engine) forgetChanOpen(st *State) {
+	if e.cs == nil || len(e.cs.Closable) == 0 {
+		return
+	}
+	a := Var(e.fresher.name("chanopen"), SArr(SInt, SBool))
+	st.ghost["chanopen"] = a
+	for k, v := range st.ghost {
+		if name, ok := strings.CutPrefix(k, "chanown:"); ok {
+			if own, isT := v.(*Term); isT && !own.IsFalse() {
+				st.Assume(Implies(own, Select(a, Var(name, SInt))))
+			}
+		}
+	}
+}
+
 // chanInvOf: the channel invariant declared for the element type of the channel expression ch (nil if none).
 func (ec *evalCtx) chanInvOf(ch ast.Expr) *ChanInv {
 	ct, ok := ec.info.TypeOf(ch).Underlying().(*types.Chan)
